@@ -808,6 +808,12 @@ class VM:
             pick = [o for o in owners if o == dh] or owners
             return Adt(pick[0], enums[pick[0]].index(segs[0]), [])
         if len(segs) == 1 and segs[0] in self.mir.src.structs: return Adt(segs[0], 0, [])
+        # one-line const item (`const NAME: usize = const 40_usize;`)
+        cl = self.mir.const_lits.get(segs[-1]) if segs and re.fullmatch(r'[A-Z][A-Z0-9_]*', segs[-1]) else None
+        if cl:
+            vals = {v for _, v in cl}
+            if len(vals) > 1: raise Unmodelled(f'const item {segs[-1]} is defined {len(cl)} times with different values')
+            return self.eval_const(cl[0][1], fr, cl[0][0])
         # const item with a body in the dump (`const NAME: T = { .. }`): evaluated by running it
         cs = self.mir.consts.get(segs[-1]) if segs and re.fullmatch(r'[A-Z][A-Z0-9_]*', segs[-1]) else None
         if cs:
